@@ -107,7 +107,10 @@ def late_additions():
     keys = [mapk('btreemap', wrap('rc', st), u8), seq('hashset', wrap('arc', P('u32'))), seq('btreeset', wrap('box', st)),
             mapk('hashmap', wrap('cow', st), P('u16')), seq('btreeset', wrap('rc', seq('vec', P('i16')))),
             mapk('hashmap', wrap('arc', tup(P('i8'), ('text', 'string'))), seq('vec', u8))]
-    return big + keys
+    # a single-variant unit enum without `repr`: zero-sized in memory, one tag byte on the wire
+    u0 = ('sum', ('enum', 'U0', ('A',), (0,)), (('prod', ('variant', (), ()), ()),))
+    single = [u0, seq('vec', u0), opt(u0), arr(3, u0), seq('btreeset', u0), tup(u0, u8)]
+    return big + keys + single
 
 
 def catalogue_types():
